@@ -13,13 +13,18 @@ GEN_FILES = ["GenCli.v"]
 EXTRA_TARGETS = ["Extract/ExtractEdit.vo", "Model/RoutesRun.vo"]
 AREAS = ["edit"]
 RULE = ("exhaustive shape space: every assignment of Keep / Clear / Set to the six editable fields (3^6 = 729 requests, value shape "
-        "str or list alternating) x 15 base metafiles (3 reference-encoded ones with UNSORTED top-level and info keys; v1 / v2 / hybrid x {all optional fields, none, tracker+source}, written by the "
-        "tool's creators, and reference-encoded metafiles with foreign extra keys) through edit_torrent, plus the CLI-expressible "
-        "subset through `torrentfile edit` (sampled 1/4 in the quick tier); model tie: the bytes written must equal the extracted Coq "
+        "str or list alternating) x 19 base metafiles (v1 / v2 / hybrid x {all optional fields, none, tracker+source}, written by the "
+        "tool's creators; reference-encoded metafiles with foreign extra keys, with several tracker tiers, 3 with UNSORTED top-level and "
+        "info keys, and 3 whose info states private = 0 explicitly) through edit_torrent, plus the CLI-expressible "
+        "subset through `torrentfile edit` (quick tier: the CLI sampled 1/4; on the private = 0 bases every request that Sets private and a "
+        "fixed third of the others); model tie: the bytes written must equal the extracted Coq "
         "model's edit of the same file bytes; end to end, independently of the model: every named field has its value (or is gone) at "
         "its home, every other key at the top level and in info is unchanged, and the raw info span (SHA-1 and SHA-256) is identical "
         "whenever no info field was named; sequences of 1..5 requests compared with the last-write summary; a separate foreign-layout "
-        "stream (top-level comment/source/private) is the known finding D11.")
+        "stream: reference-encoded v1 / v2 / hybrid metafiles with a top-level comment / source / private (with and without the same "
+        "key in info) x 12 requests (Set str / list of comment and source, alone and combined with other fields; Set private; Clear) x "
+        "library and CLI, judged by the same frame judge and included in the model tie: a failing Set is a violation, only a failing "
+        "Clear of exactly the shape of known finding D11 (the top-level key deleted, info untouched) is routed to D11.")
 TRUSTED_BASE = [
     "Coq 8.16.1 kernel; theorems closed under the global context",
     "hand models Model/Edit.v and Model/Bencode.v tied to edit.py / pyben by differential execution on the exhaustive shape space",
@@ -27,7 +32,7 @@ TRUSTED_BASE = [
     "argparse maps the edit flags to the request as exercised end to end (C20 treats option routing)",
 ]
 ASSUMPTIONS = ["metafiles have duplicate-free keys (true of everything pyben decodes into a dict)",
-               "layout_ok for the frame theorems (foreign layouts: known finding D11)"]
+               "layout_ok for the frame theorems (foreign layouts: a Clear there is the known finding D11; Set requests on them are checked end to end)"]
 
 HOME = {"comment": "info", "source": "info", "private": "info", "announce": "top", "url-list": "top", "httpseeds": "top"}
 
@@ -123,7 +128,8 @@ def run(ctx, model_ok):
         desc = {"metafile": label, "request": {k: v for k, v in req.items()}, "via": via}
         nontriv = any(c != "keep" for c in combo)
         ctx.case(key=(label, combo, via), nontrivial=nontriv,
-                 classes=[f"{f}:{c}" for f, c in zip(EC.FIELDS, combo) if c != "keep"][:6] + [f"via {via}", "metafile " + label.split("/")[0]],
+                 classes=[f"{f}:{c}" for f, c in zip(EC.FIELDS, combo) if c != "keep"][:6] + [f"via {via}", "metafile " + label.split("/")[0]]
+                 + (["base states private=0: private " + combo[2]] if label.endswith("/private0") else []),
                  sample=desc if len(ctx.samples) < 2 and nontriv else None)
         if exc is not None:
             if isinstance(exc, IndexError) and after == before:
@@ -140,6 +146,7 @@ def run(ctx, model_ok):
             ctx.fail("edit-frame", dict(desc, base_hex=before.hex()), "only the named fields change", probs[:5])
 
     EC.enumerate_edits(ctx, visit)
+    foreign_layout(ctx, cases)
 
     if model_ok:
         outs = modelrun.run("edit", [(b.hex(), spec) for spec, b, _, _ in cases])
@@ -153,7 +160,6 @@ def run(ctx, model_ok):
                     ctx.disagree("Model/Edit.v vs edit.edit_torrent (bytes written)", dict(desc, spec=spec, base_hex=before.hex()),
                                  o[:160], want[:160])
     sequences(ctx)
-    foreign_layout(ctx)
     cli_tie(ctx, model_ok)
     interactive_edits(ctx)
 
@@ -336,23 +342,108 @@ def sequences(ctx):
             ctx.case(key=("seq", i, label, repr(seq)), classes=[f"sequence of {len(seq)}"])
 
 
-def foreign_layout(ctx):
-    """metafiles with a top-level key named like an info field: known finding D11"""
+FOREIGN_LAYOUTS = [      # (label, extra top-level keys, extra info keys): info fields that ANOTHER tool wrote at the top level
+    ("top-level comment", {b"comment": b"top comment"}, {}),
+    ("top-level comment + info.comment", {b"comment": b"top comment"}, {b"comment": b"inner comment"}),
+    ("top-level source", {b"source": b"TOPSRC"}, {}),
+    ("top-level source + info.source", {b"source": b"TOPSRC"}, {b"source": b"INSRC"}),
+    ("top-level comment and source", {b"comment": b"top comment", b"source": b"TOPSRC"}, {b"source": b"INSRC"}),
+    ("top-level private=0", {b"private": 0}, {}),
+]
+
+
+def foreign_requests(rng):
+    S, L = "str", "list"
+    v = EC.value_for
+    return [("set comment str", {"comment": v("comment", S, rng)}),
+            ("set comment list", {"comment": v("comment", L, rng)}),
+            ("set source str", {"source": v("source", S, rng)}),
+            ("set source list", {"source": v("source", L, rng)}),
+            ("set comment+source", {"comment": v("comment", S, rng), "source": v("source", S, rng)}),
+            ("set comment+source+tracker", {"comment": v("comment", L, rng), "source": v("source", S, rng), "announce": v("announce", S, rng)}),
+            ("set comment+private", {"comment": v("comment", S, rng), "private": True}),
+            ("set private", {"private": v("private", S, rng)}),
+            ("set source+web-seed", {"source": v("source", S, rng), "url-list": v("url-list", L, rng)}),
+            ("clear comment", {"comment": ""}),
+            ("clear source", {"source": ""}),
+            ("clear private", {"private": ""})]
+
+
+def d11_pattern(req, before, after, probs):
+    """the problems are exactly those of the known finding D11: the request CLEARS (and sets nothing) a field that the base carries
+       at the top level, that top-level key is gone and info kept its own; nothing else differs"""
+    if not probs or after is None or any(v not in (None, "") for v in req.values()):
+        return False
+    b, a = decode(before), decode(after)
+    allowed = set()
+    for f in ("comment", "source", "private"):
+        key = f.encode()
+        if req.get(f) == "" and key in b and key not in a:
+            allowed.add(f"unnamed top-level key {key!r} changed")
+            if key in b[b"info"] and a[b"info"].get(key) == b[b"info"][key]:
+                allowed.add(f"{f} cleared but still present")
+    return all(p in allowed for p in probs)
+
+
+def foreign_layout(ctx, cases):
+    """reference-encoded v1 / v2 / hybrid metafiles that carry a top-level key named like an info field (comment, source, private;
+       with and without the same key in info).  SET (str and list values; library and command line): the value must arrive in info
+       and the top-level key -- unnamed -- must stay: a failure is a violation (kind edit-frame-foreign-layout).  CLEAR of the field
+       that sits at the top level: the known finding D11 (kind foreign-layout) when the failure has exactly the D11 shape, a
+       violation otherwise.  Every case also enters the model tie."""
     core.use_repo_in_process()
     from torrentfile.edit import edit_torrent
+    from torrentfile.cli import execute
+    pl = 16384
+    files = [(("a",), ctx.rng.randbytes(pl + 5)), (("d", "b"), ctx.rng.randbytes(77))]
+    reqs = foreign_requests(ctx.rng)
     with core.Scratch("vc07f_") as tmp:
-        mf = os.path.join(tmp, "f.torrent")
-        raw = oracle.bencode({b"comment": b"top", b"info": {b"comment": b"inner", b"length": 1, b"name": b"a",
-                                                           b"piece length": 16384, b"pieces": b"x" * 20}})
-        with open(mf, "wb") as fd:
-            fd.write(raw)
-        trees.quiet(edit_torrent, mf, {"comment": ""})
-        probs = frame_problems({"comment": ""}, raw, oracle.read(mf))
-        ctx.case(key="foreign-layout", classes=["foreign layout"])
-        if probs:
-            ctx.fail("foreign-layout", {"metafile": "top-level comment + info.comment", "request": {"comment": ""}, "via": "lib",
-                                        "base_hex": raw.hex()},
-                     "info.comment removed, top-level comment untouched", probs)
+        os.environ["HOME"] = tmp
+        work = os.path.join(tmp, "f.torrent")
+        for ver in (1, 2, 3):
+            for lname, top, inner in FOREIGN_LAYOUTS:
+                label = f"foreign-v{ver}/{lname}"
+                before = oracle.ref_metafile("payload", files, pl, ver, extra_top={**top, b"announce": b"http://f/a"},
+                                             extra_info=dict(inner))
+                for rname, req in reqs:
+                    for via in ("lib", "cli"):
+                        if via == "cli":
+                            argv = EC.cli_argv(work, req)
+                            if argv is None:
+                                continue
+                        with open(work, "wb") as fd:
+                            fd.write(before)
+                        exc = None
+                        try:
+                            if via == "cli":
+                                trees.quiet(execute, argv)
+                            else:
+                                trees.quiet(edit_torrent, work, dict(req))
+                        except Exception as e:  # noqa
+                            exc = e
+                        after = oracle.read(work) if os.path.isfile(work) else None
+                        desc = {"metafile": label, "request": dict(req), "via": via, "base_hex": before.hex()}
+                        named_top = sorted(f for f in ("comment", "source", "private") if req.get(f) is not None and f.encode() in top)
+                        ctx.case(key=("foreign-layout", label, rname, via), nontrivial=True,
+                                 classes=["foreign layout", "foreign layout: " + lname, "foreign layout: " + rname, f"via {via}",
+                                          "foreign layout: request names a field present at top level" if named_top else
+                                          "foreign layout: request names no misplaced field"])
+                        if exc is not None:
+                            ctx.fail("edit-raised", desc, "an edited metafile", f"{type(exc).__name__}: {exc}")
+                            continue
+                        if after is None:
+                            ctx.fail("metafile-missing-after-edit", desc, "a metafile", None)
+                            continue
+                        cases.append((req_spec(req, via), before, after, {k: x for k, x in desc.items() if k != "base_hex"}))
+                        probs = frame_problems(req, before, after)
+                        if not probs:
+                            continue
+                        if d11_pattern(req, before, after, probs):
+                            ctx.fail("foreign-layout", desc, "the field removed from info, the top-level key of that name untouched", probs)
+                        else:
+                            ctx.fail("edit-frame-foreign-layout", desc,
+                                     "the named fields written into info (their home), every other key -- the top-level one of the same "
+                                     "name included -- unchanged", probs[:5])
 
 
 def classify(failure):
@@ -472,7 +563,7 @@ def replay(ctx, data):
         inp = data.get("input") if isinstance(data.get("input"), dict) else None
         if data.get("finding") or data.get("reproducer"):
             rcs.append(c17.replay_finding("C07", data))
-        elif kind in ("edit-frame", "edit-raised", "metafile-missing-after-edit", "foreign-layout"):
+        elif kind in ("edit-frame", "edit-raised", "metafile-missing-after-edit", "foreign-layout", "edit-frame-foreign-layout"):
             if not inp or "base_hex" not in inp or "request" not in inp:
                 rcs.append(_cannot(kind, "the bytes of the base metafile were not recorded in this file"))
             else:
